@@ -58,7 +58,7 @@ func runC16(o *opts) (*summary, error) {
 
 	// dates: adjacent days of 4 years (leap, century), month/year boundaries, 0001/9999, random grid
 	days := [][3]int{}
-	for _, y := range []int{1900, 2000, 2023, 2024} {
+	for _, y := range []int{1900, 2000, 2023, 2024, 400, 2400} {
 		for d := time.Date(y, 1, 1, 0, 0, 0, 0, time.UTC); d.Year() == y; d = d.AddDate(0, 0, 1) {
 			days = append(days, [3]int{d.Year(), int(d.Month()), d.Day()})
 		}
@@ -70,6 +70,10 @@ func runC16(o *opts) (*summary, error) {
 		// the first day of the range is also the zero value of the type
 		if d == [3]int{1, 1, 1} && rng.Intn(2) == 0 {
 			return types.Date{}, M{"y": 1, "m": 1, "d": 1}
+		}
+		// a third of the values through the constructor
+		if rng.Intn(3) == 0 {
+			return types.ToDate(d[0], time.Month(d[1]), d[2]), M{"y": d[0], "m": d[1], "d": d[2]}
 		}
 		// half of the values at a non-midnight clock in a foreign location: comparisons are by civil date
 		var t time.Time
